@@ -105,6 +105,15 @@ def run(prop, level, rule, plans, tags=None, keys=("plain",), modes=("compiled",
     for plan, g, r in graphs_iter():
         tot_states += len(g.states)
         tot_trans += len(g.edges)
+        if plan["universe"] == "U7" and plan["variant"] in ("extras", "all", "xfer_all") and plan["depth"] >= 3 and not plan.get("simulate") and not plan.get("walks"):
+            # vacuity guard: the universe exists for nested updates; a graph without a single update that contains an inner one means the action can no
+            # longer happen in the model (a guard that became too strong), which no invariant would notice
+            nested = sum(1 for e_ in g.edges if e_[1].get("flat"))
+            nfault = sum(1 for e_ in g.edges if e_[1].get("exc") == "Fault" and "N1" in e_[1].get("ran", []))
+            stats["updates_with_inner_update"] += nested
+            stats["faults_after_inner_update_started"] += nfault
+            if not nested or (plan["variant"] != "extras" and plan["depth"] >= 4 and not nfault):
+                raise Machinery(f"Manager.tla / MC_U7: no nested update in the explored graph ({plan}): the nest task can no longer be registered or triggered")
         for kk in keys:
             dig = {} if cross_config else None
             for mode in modes:
